@@ -20,9 +20,9 @@ import (
 )
 
 type Field struct {
-	Name string `json:"n"`
+	Name string  `json:"n"`
 	Tag  *string `json:"tag,omitempty"` // text of the class tag; nil = no tag
-	V    *V     `json:"v"`
+	V    *V      `json:"v"`
 }
 
 // Tag of a Taggable: pointer text as handed to the filter, classification and filter operation texts
@@ -33,18 +33,18 @@ type PTag struct {
 }
 
 type V struct {
-	K      string  `json:"k"` // str bytes nilbytes strs bytess wstr wbytes int bool time struct ptr nilptr slice map tmap hand
-	C      int     `json:"c,omitempty"`
-	Cs     []int   `json:"cs,omitempty"`
-	I      int64   `json:"i,omitempty"`
-	Fields []Field `json:"fields,omitempty"` // struct, hand
-	Elem   *V      `json:"elem,omitempty"`   // ptr, nilptr (type witness), slice (element type witness when empty)
-	Elems  []*V    `json:"elems,omitempty"`  // slice
-	Iface  bool    `json:"iface,omitempty"`  // map: map[string]interface{}
-	Keys   []string `json:"keys,omitempty"`  // map, tmap
-	Vals   []*V    `json:"vals,omitempty"`
-	Tags   []PTag  `json:"tags,omitempty"` // tmap, hand Taggable struct
-	Hand   string  `json:"hand,omitempty"` // name of the hand-written type
+	K      string   `json:"k"` // str bytes nilbytes strs bytess wstr wbytes int bool time struct ptr nilptr slice map tmap hand
+	C      int      `json:"c,omitempty"`
+	Cs     []int    `json:"cs,omitempty"`
+	I      int64    `json:"i,omitempty"`
+	Fields []Field  `json:"fields,omitempty"` // struct, hand
+	Elem   *V       `json:"elem,omitempty"`   // ptr, nilptr (type witness), slice (element type witness when empty)
+	Elems  []*V     `json:"elems,omitempty"`  // slice
+	Iface  bool     `json:"iface,omitempty"`  // map: map[string]interface{}
+	Keys   []string `json:"keys,omitempty"`   // map, tmap
+	Vals   []*V     `json:"vals,omitempty"`
+	Tags   []PTag   `json:"tags,omitempty"` // tmap, hand Taggable struct
+	Hand   string   `json:"hand,omitempty"` // name of the hand-written type
 }
 
 func canary(c int) string {
@@ -159,17 +159,17 @@ func nameN(s string) int {
 
 // ---------- Go types and values from trees ----------
 var (
-	tString  = reflect.TypeOf("")
-	tBytes   = reflect.TypeOf([]byte(nil))
-	tStrs    = reflect.TypeOf([]string(nil))
-	tBytess  = reflect.TypeOf([][]byte(nil))
-	tInt     = reflect.TypeOf(0)
-	tBool    = reflect.TypeOf(false)
-	tTime    = reflect.TypeOf(time.Time{})
-	tIface   = reflect.TypeOf((*interface{})(nil)).Elem()
-	tWStr    = reflect.TypeOf(wrapperspb.StringValue{})
-	tWBytes  = reflect.TypeOf(wrapperspb.BytesValue{})
-	tTMap    = reflect.TypeOf(TMap{})
+	tString = reflect.TypeOf("")
+	tBytes  = reflect.TypeOf([]byte(nil))
+	tStrs   = reflect.TypeOf([]string(nil))
+	tBytess = reflect.TypeOf([][]byte(nil))
+	tInt    = reflect.TypeOf(0)
+	tBool   = reflect.TypeOf(false)
+	tTime   = reflect.TypeOf(time.Time{})
+	tIface  = reflect.TypeOf((*interface{})(nil)).Elem()
+	tWStr   = reflect.TypeOf(wrapperspb.StringValue{})
+	tWBytes = reflect.TypeOf(wrapperspb.BytesValue{})
+	tTMap   = reflect.TypeOf(TMap{})
 )
 
 func typeOf(v *V) reflect.Type {
